@@ -105,6 +105,13 @@ var usedMap = map[string]interface{}{}
 
 var usedHolds bool
 
+// holder is a long-lived runner over its own map; $__held there is the previous call's result.
+var holder *formula.Runner
+
+var holderMap = map[string]interface{}{}
+
+var heldWant, heldFrom string
+
 // replaying: a saved case is re-run on its own; both ways of handing data to the used runner are tried in turn.
 var replaying = os.Getenv("VERIF_REPLAY") != ""
 
@@ -260,6 +267,39 @@ func EvalText(text string, data map[string]interface{}) EvalOut {
 		}
 		if c := Eval(usedRunner, context.Background(), p.Src.Expression).String(); c != a {
 			return EvalOut{Panic: fmt.Sprintf("%q evaluates to %s on a new runner, but to %s on a runner that evaluated other formulas before and %s", text, a, c, how)}
+		}
+		// A value bound to a local stays what it was while the runner evaluates other formulas: the previous
+		// call's result, bound to a local of one long-lived runner then, is read back after this call's
+		// formula ran there; then this call's result is bound in its place.
+		if data != nil && !strings.Contains(text, "this") && !strings.Contains(text, "ctx") {
+			if holder == nil {
+				holder = formula.NewRunner()
+				holder.SetThis(holderMap)
+			}
+			for k := range holderMap {
+				if k != "$__held" {
+					delete(holderMap, k)
+				}
+			}
+			for k, v := range data {
+				holderMap[k] = v
+			}
+			Eval(holder, context.Background(), p.Src.Expression)
+			if heldWant != "" {
+				if rd := Parse([]byte("$__held")); rd.OK() {
+					if got := Eval(holder, context.Background(), rd.Src.Expression).String(); got != heldWant {
+						return EvalOut{Panic: fmt.Sprintf("a runner evaluated '$__held = (%s)', which gave %s, and then %q; now $__held reads %s", heldFrom, heldWant, text, got)}
+					}
+				}
+			}
+			heldWant, heldFrom = "", ""
+			if bind := Parse([]byte("$__held = (" + text + ")")); bind.OK() {
+				if b := Eval(holder, context.Background(), bind.Src.Expression); b.Panic == nil && b.Err == nil && b.String() == a {
+					heldWant, heldFrom = a, text
+				} else {
+					delete(holderMap, "$__held")
+				}
+			}
 		}
 		// Spacing is not part of the meaning: the same tokens with every optional separator removed
 		// (`a?.5:b`, `x||!y`, `1- -2`) parse and evaluate to the same outcome.
